@@ -1,0 +1,8 @@
+//go:build !verif
+
+package utreexo
+
+// verifPoint marks a point inside a critical section that an external
+// verification harness can observe when the package is built with the
+// "verif" tag. Without the tag it is an empty function.
+func verifPoint(site string) {}
